@@ -227,6 +227,43 @@ theorem deliver_unseen (nx : Nat) (c : Cl) (e : Ev) (n : Nat) (hn : n ≠ e.n) (
     getRec (deliver c e nx).1 n = none :=
   (frame_deliver nx c e n hn).recs (· = none) (fun o ho => by rw [ho]; rfl) h
 
+/-- an event whose creation state is not a prefix of the client's MLS path (created on a branch the client
+    is not on, or ahead of the client) fails the outer layer: every stored exporter secret is the secret
+    of a prefix of the client's path (`SecretsOK`) -/
+theorem outerOpens_stale (g : GState) (e : Ev) (hs : SecretsOK g) (hst : ¬ e.path <+: g.path) : outerOpens g e = false := by
+  have key : ∀ ep, (match alookup ep g.secrets with | some p => p == e.path | none => false) = false := by
+    intro ep
+    cases h : alookup ep g.secrets with
+    | none => rfl
+    | some q =>
+      simp only [beq_eq_false_iff_ne, ne_eq]
+      intro x
+      exact hst (x ▸ (hs ep q h).2)
+  unfold outerOpens
+  simp only [Bool.or_eq_false_iff, List.any_eq_false, List.mem_range, Bool.and_eq_true, decide_eq_true_eq, not_and,
+    Bool.not_eq_true]
+  exact ⟨key _, fun x _ _ => key _⟩
+
+/-- … so delivering it changes nothing, or (first time, or re-opened as Retryable) only stores the current
+    epoch's exporter secret and writes the event's OWN record: Failed -/
+theorem stale_deliverN (fuel nx : Nat) (c : Cl) (e : Ev) (hg : c.hasGroup = true) (hs : SecretsOK (ensureSecret c.g))
+    (hst : ¬ e.path <+: c.g.path) :
+    (deliverN fuel nx c e).1 = c ∨ (deliverN fuel nx c e).1 = recordFailure (withSecret c) e.n true none := by
+  have ho : outerOpens (withSecret c).g e = false :=
+    outerOpens_stale _ e hs (by rw [withSecret_path]; exact hst)
+  have hstep : ∀ retry, (step1 retry nx c e).1 = recordFailure (withSecret c) e.n true none := by
+    intro retry
+    unfold step1
+    simp [hg, ho]
+  obtain ⟨retry, hd⟩ := deliverN_once fuel nx c e
+  rw [hd]
+  unfold deliverOnce
+  split
+  · split
+    · exact Or.inl rfl
+    · exact Or.inr (hstep retry)
+  · exact Or.inr (hstep retry)
+
 /-- a record is fixed by every rollback re-marking to an epoch `≥ K` -/
 def StableRec (K : Nat) (r : Rec) : Prop := ∀ ep, K ≤ ep → rbRec ep r = r
 
@@ -733,6 +770,200 @@ theorem chain_run (nx : Nat) (c : Cl) (w : Ev) (T l : List Ev) (rest : List Leve
     ChainDone c ((w, T) :: rest) (run nx c (l ++ ls.flatten)) :=
   chain_step nx c w T l rest ls.flatten _ hat hbelow hmin hcov hcross hchain hu (run_append nx c l _)
     (fun c1 hr1 hch1 hu1 => chain_rest nx rest c1 ls hr1 hch1 hu1 hw)
+
+/-! ## §F  stale events may be interleaved
+
+  An event created on a branch the client is not on (its creation path is neither a prefix of the fork's
+  parent path nor a child of the parent by one of the fork's commits) is refused by the outer layer
+  wherever it is delivered during the fork (`stale_deliverN`): it only writes its own record.  The
+  simulation relation of the fork does not look at that record, so the fork theorems hold for delivery
+  lists that interleave such events freely. -/
+
+/-- `e` is stale at the fork `T` of the client `c` -/
+structure StaleAt (c : Cl) (T : List Ev) (e : Ev) : Prop where
+  num : ∀ a ∈ T, e.n ≠ a.n
+  parent : ¬ e.path <+: c.g.path
+  child : ∀ a ∈ T, e.path ≠ c.g.path ++ [a.cipher]
+
+/-- what a refused stale delivery does to the client -/
+structure Quiet (n : Nat) (c c' : Cl) : Prop where
+  id : c'.id = c.id
+  persistent : c'.persistent = c.persistent
+  retention : c'.retention = c.retention
+  maxPast : c'.maxPast = c.maxPast
+  hasGroup : c'.hasGroup = c.hasGroup
+  g : c'.g = c.g ∨ c'.g = ensureSecret c.g
+  mgr : c'.mgr = c.mgr
+  msgs : c'.msgs = c.msgs
+  recs : ∀ m, m ≠ n → getRec c' m = getRec c m
+
+theorem quiet_refl (n : Nat) (c : Cl) : Quiet n c c := ⟨rfl, rfl, rfl, rfl, rfl, Or.inl rfl, rfl, rfl, fun _ _ => rfl⟩
+
+theorem quiet_stale (fuel nx : Nat) (c : Cl) (e : Ev) (hg : c.hasGroup = true) (hs : SecretsOK (ensureSecret c.g))
+    (hst : ¬ e.path <+: c.g.path) : Quiet e.n c (deliverN fuel nx c e).1 := by
+  rcases stale_deliverN fuel nx c e hg hs hst with h | h
+  · rw [h]; exact quiet_refl _ c
+  · rw [h]
+    refine ⟨rfl, rfl, rfl, rfl, rfl, Or.inr rfl, rfl, rfl, ?_⟩
+    intro m hm
+    simp only [getRec, recordFailure, setRec]
+    exact alookup_ainsert_ne _ _ _ _ hm
+
+theorem Quiet.consumed {n : Nat} {c c' : Cl} (h : Quiet n c c') : c'.g.consumed = c.g.consumed := by
+  rcases h.g with x | x
+  · rw [x]
+  · rw [x]; exact (ensureSecret_fields c.g).2.2.2.2.2.2.2.2.2.2.1
+
+theorem Quiet.frame {n : Nat} {c c' : Cl} (h : Quiet n c c') (ep m : Nat) (hm : m ≠ n) : Frame ep m c c' :=
+  ⟨h.id, h.persistent, h.retention, h.maxPast, h.hasGroup, fun P _ hp => by rw [h.recs m hm]; exact hp⟩
+
+theorem pform_quiet {c0 c c' : Cl} {n : Nat} (hf : PForm c0 c) (h : Quiet n c c') : PForm c0 c' := by
+  refine ⟨h.id.trans hf.id, h.retention.trans hf.ret, h.maxPast.trans hf.mp, h.hasGroup.trans hf.hg, ?_, ?_⟩
+  · rw [h.consumed]
+    rcases h.g with x | x
+    · rw [x]; exact hf.g
+    · rw [x, ensureSecret_idem]; exact hf.g
+  · rw [h.mgr]; exact hf.mgr
+
+theorem cform_quiet {c0 c c' : Cl} {a : Ev} {n : Nat} (hb : Base c0) (ha : Com c0 a) (hf : CForm c0 a c) (h : Quiet n c c') :
+    CForm c0 a c' := by
+  have hst : ensureSecret c.g = c.g := by
+    rw [hf.g, ensureSecret_wc, (childG_stable c0 hb a ha).1]
+  have hg : c'.g = c.g := by
+    rcases h.g with x | x
+    · exact x
+    · rw [x, hst]
+  refine ⟨h.id.trans hf.id, h.retention.trans hf.ret, h.maxPast.trans hf.mp, h.hasGroup.trans hf.hg, ?_, ?_⟩
+  · rw [hg]; exact hf.g
+  · rw [h.mgr, hg]; exact hf.mgr
+
+/-- the client's stored secrets (with the current one ensured) follow its path, in both shapes of the fork -/
+theorem pform_secrets {c0 c : Cl} (hs0 : SecretsOK c0.g) (hf : PForm c0 c) :
+    SecretsOK (ensureSecret c.g) ∧ c.g.path = c0.g.path := by
+  have hp : c.g.path = c0.g.path := by
+    have := congrArg GState.path hf.g
+    rw [ensureSecret_path] at this; rw [this]; exact gP_path c0
+  refine ⟨?_, hp⟩
+  rw [hf.g]
+  exact secretsOK_wc _ _ (secretsOK_ensure _ hs0)
+
+theorem cform_secrets {c0 c : Cl} {a : Ev} (hb : Base c0) (hs0 : SecretsOK c0.g) (ha : Com c0 a) (hf : CForm c0 a c) :
+    SecretsOK (ensureSecret c.g) ∧ c.g.path = c0.g.path ++ [a.cipher] := by
+  have hst : ensureSecret c.g = c.g := by
+    rw [hf.g, ensureSecret_wc, (childG_stable c0 hb a ha).1]
+  refine ⟨?_, by rw [hf.g]; exact (childG_facts c0 hb a ha).1⟩
+  rw [hst, hf.g]
+  exact secretsOK_wc _ _ (secretsOK_childOfG _ _ _ hs0)
+
+theorem not_prefix_child {p q : Path} {x : Nat} (h1 : ¬ q <+: p) (h2 : q ≠ p ++ [x]) : ¬ q <+: p ++ [x] := by
+  intro h
+  rcases List.prefix_concat_iff.mp h with y | y
+  · exact h2 y
+  · exact h1 y
+
+/-- a stale delivery keeps the simulation relation (bystander) -/
+theorem rel_stale (c0 : Cl) (hb : Base c0) (hs0 : SecretsOK c0.g) (S : List Ev) (hS : Sibs c0 S) (c : Cl) (st : FState)
+    (nx : Nat) (h : Rel c0 S c st) (e : Ev) (hst : StaleAt c0 S e) : Rel c0 S (deliver c e nx).1 st := by
+  have hq : Quiet e.n c (deliver c e nx).1 := by
+    cases hap : st.applied with
+    | none =>
+      have hf := h.par hap
+      obtain ⟨h1, h2⟩ := pform_secrets hs0 hf
+      exact quiet_stale 3 nx c e hf.hg h1 (by rw [h2]; exact hst.parent)
+    | some ka =>
+      obtain ⟨a, haS, _, hcf, _⟩ := h.chi ka hap
+      obtain ⟨h1, h2⟩ := cform_secrets hb hs0 (hS.sib a haS).com hcf
+      exact quiet_stale 3 nx c e hcf.hg h1 (by rw [h2]; exact not_prefix_child hst.parent (hst.child a haS))
+  have hrec : ∀ e' ∈ S, getRec (deliver c e nx).1 e'.n = getRec c e'.n :=
+    fun e' he' => hq.recs e'.n (fun x => hst.num e' he' x.symm)
+  refine ⟨?_, fun hap => pform_quiet (h.par hap) hq, ?_, ?_, ?_⟩
+  · intro x hx
+    rw [hq.consumed] at hx
+    rcases h.cons x hx with y | ⟨e', he', hc, hn⟩
+    · exact Or.inl y
+    · exact Or.inr ⟨e', he', hc, by rw [hrec e' he']; exact hn⟩
+  · intro k hk
+    obtain ⟨a, haS, hka, hcf, hra⟩ := h.chi k hk
+    exact ⟨a, haS, hka, cform_quiet hb (hS.sib a haS).com hcf hq, by rw [hrec a haS]; exact hra⟩
+  · intro e' he' hb'
+    rw [hrec e' he']; exact h.blk e' he' hb'
+  · intro e' he' hb' hna
+    rw [hrec e' he']; exact h.fresh e' he' hb' hna
+
+/-- a stale delivery keeps the simulation relation (committer) -/
+theorem rel2_stale (c0 : Cl) (hb : Base c0) (hs0 : SecretsOK c0.g) (o : Ev) (S : List Ev) (hS : Sibs2 c0 o S) (c : Cl)
+    (st : FState) (nx : Nat) (h : Rel2 c0 o S c st) (e : Ev) (hst : StaleAt c0 (o :: S) e) :
+    Rel2 c0 o S (deliver c e nx).1 st := by
+  have hq : Quiet e.n c (deliver c e nx).1 := by
+    cases hap : st.applied with
+    | none =>
+      have hf := h.par hap
+      obtain ⟨h1, h2⟩ := pform_secrets hs0 hf
+      exact quiet_stale 3 nx c e hf.hg h1 (by rw [h2]; exact hst.parent)
+    | some ka =>
+      obtain ⟨a, haT, _, hcf, _⟩ := h.chi ka hap
+      obtain ⟨h1, h2⟩ := cform_secrets hb hs0 (hS.com a haT) hcf
+      exact quiet_stale 3 nx c e hcf.hg h1 (by rw [h2]; exact not_prefix_child hst.parent (hst.child a haT))
+  have hrec : ∀ e' ∈ o :: S, getRec (deliver c e nx).1 e'.n = getRec c e'.n :=
+    fun e' he' => hq.recs e'.n (fun x => hst.num e' he' x.symm)
+  have hST : ∀ e' ∈ S, e' ∈ o :: S := fun e' h' => List.mem_cons_of_mem _ h'
+  refine ⟨?_, fun hap => pform_quiet (h.par hap) hq, ?_, ?_, ?_, ?_⟩
+  · intro x hx
+    rw [hq.consumed] at hx
+    rcases h.cons x hx with y | ⟨e', he', hc, hn⟩
+    · exact Or.inl y
+    · exact Or.inr ⟨e', he', hc, by rw [hrec e' (hST e' he')]; exact hn⟩
+  · intro k hk
+    obtain ⟨a, haT, hka, hcf, hra⟩ := h.chi k hk
+    exact ⟨a, haT, hka, cform_quiet hb (hS.com a haT) hcf hq, by rw [hrec a haT]; exact hra⟩
+  · intro e' he' hb'
+    rw [hrec e' he']; exact h.blk e' he' hb'
+  · intro e' he' hb' hna
+    rw [hrec e' (hST e' he')]; exact h.fresh e' he' hb' hna
+  · intro hb' hna
+    rw [hrec o List.mem_cons_self]; exact h.ownf hb' hna
+
+/-- the keys of the fork's commits in a mixed delivery list, in order -/
+def sibKeys (T l : List Ev) : List Key := (l.filter (fun e => decide (e ∈ T))).map key
+
+theorem sibKeys_cons_mem {T : List Ev} {e : Ev} (l : List Ev) (h : e ∈ T) : sibKeys T (e :: l) = key e :: sibKeys T l := by
+  simp [sibKeys, h]
+theorem sibKeys_cons_not {T : List Ev} {e : Ev} (l : List Ev) (h : e ∉ T) : sibKeys T (e :: l) = sibKeys T l := by
+  simp [sibKeys, h]
+
+theorem rel_run_mixed (c0 : Cl) (hb : Base c0) (hs0 : SecretsOK c0.g) (S : List Ev) (hS : Sibs c0 S) (nx : Nat) (l : List Ev) :
+    ∀ (c : Cl) (st : FState), Rel c0 S c st → FInv st → (∀ e ∈ l, e ∈ S ∨ StaleAt c0 S e) →
+      Rel c0 S (run nx c l) (frun st (sibKeys S l)) := by
+  induction l with
+  | nil => intro c st h _ _; exact h
+  | cons e t ih =>
+    intro c st h hi hl
+    have hl' : ∀ x ∈ t, x ∈ S ∨ StaleAt c0 S x := fun x hx => hl x (List.mem_cons_of_mem _ hx)
+    rw [run_cons]
+    by_cases he : e ∈ S
+    · rw [sibKeys_cons_mem t he]
+      exact ih _ _ (rel_step c0 hb S hS c st nx h hi e he) (finv_deliver st _ hi) hl'
+    · rw [sibKeys_cons_not t he]
+      rcases hl e List.mem_cons_self with x | x
+      · exact absurd x he
+      · exact ih _ _ (rel_stale c0 hb hs0 S hS c st nx h e x) hi hl'
+
+theorem rel2_run_mixed (c0 : Cl) (hb : Base c0) (hs0 : SecretsOK c0.g) (o : Ev) (S : List Ev) (hS : Sibs2 c0 o S) (nx : Nat)
+    (l : List Ev) : ∀ (c : Cl) (st : FState), Rel2 c0 o S c st → FInv st → (∀ e ∈ l, e ∈ o :: S ∨ StaleAt c0 (o :: S) e) →
+      Rel2 c0 o S (run nx c l) (frun2 (key o) st (sibKeys (o :: S) l)) := by
+  induction l with
+  | nil => intro c st h _ _; exact h
+  | cons e t ih =>
+    intro c st h hi hl
+    have hl' : ∀ x ∈ t, x ∈ o :: S ∨ StaleAt c0 (o :: S) x := fun x hx => hl x (List.mem_cons_of_mem _ hx)
+    rw [run_cons]
+    by_cases he : e ∈ o :: S
+    · rw [sibKeys_cons_mem t he]
+      exact ih _ _ (rel2_step c0 hb o S hS c st nx h hi e he) (finv_deliver2 _ st _ hi) hl'
+    · rw [sibKeys_cons_not t he]
+      rcases hl e List.mem_cons_self with x | x
+      · exact absurd x he
+      · exact ih _ _ (rel2_stale c0 hb hs0 o S hS c st nx h e x) hi hl'
 
 /-! ## decidable forms of the event conditions (for closed examples) -/
 
